@@ -15,8 +15,19 @@ package httpserver
 //	[5]     Recover: what the periodic failed-check does (eventCheckFailed -> startServer); with
 //	                 `busyStart` the FIRST start fails (port owned by somebody else, freed at Recover)
 //
+//	[6]     DialPark : like Dial, but the request is parked INSIDE the handler (in flight, not idle)
+//	[7, i]  Unpark   : the handler of client i returns; the client reads the response and closes
+//	[8]     RestartIF: a restart-needing reload issued while the harness's connections stay open. The
+//	                   unchanged runtime gives Shutdown a 30 s grace: idle connections are closed by it,
+//	                   and while a request is in flight the reload does NOT return. The harness waits a
+//	                   bounded time for it (it can only miss an early return, never invent one); when
+//	                   the reload is still blocked it lets the parked requests finish and then awaits it.
+//
+// `kat` is the keepAliveTimeout of every spec of the case ("0s" = unlimited for net/http; with
+// "1ms" / "50ms" idle connections die on their own, so only parked requests are used there).
 // Whatever the path of hot reloads, restarts, failures and recoveries, the cap in force must be
-// the maxConnections of the LAST configured spec.
+// the maxConnections of the LAST configured spec, and the connections still open on a replaced
+// listener count against it together with those of the new one.
 //
 // Observables per step: the decoded Spec.MaxConnections, the ids of the connections that have
 // been SERVED (response received) and are still open, and the semaphore behind the listener.
@@ -35,11 +46,13 @@ import (
 	goruntime "runtime"
 	"runtime/pprof"
 	"sort"
+	"sync"
 	"sync/atomic"
 	"testing"
 	"time"
 
 	"github.com/megaease/easegress/pkg/context"
+	"github.com/megaease/easegress/pkg/protocols/httpprot"
 	"github.com/megaease/easegress/pkg/protocols/httpprot/httpstat"
 	"github.com/megaease/easegress/pkg/supervisor"
 	sem2 "github.com/megaease/easegress/pkg/util/sem"
@@ -48,6 +61,7 @@ import (
 type c17HsIn struct {
 	Init      int64     `json:"init"`      // maxConnections in the first YAML
 	BusyStart bool      `json:"busyStart"` // somebody else owns the port at the first start: the server starts in state failed
+	Kat       string    `json:"kat"`       // keepAliveTimeout of every spec of the case: "" (= 60s) | "0s" | "1ms" | "50ms"
 	M         int64     `json:"M"`
 	Ops       [][]int64 `json:"ops"`
 }
@@ -62,6 +76,8 @@ type c17HsStep struct {
 	Shr     int64   `json:"shr"`
 	Skip    bool    `json:"skip"`    // operation not issued (Reload shrinking by exactly 1, see settle; operation impossible in this state)
 	Running bool    `json:"running"` // runtime state is running after the operation
+	OldOpen int64   `json:"oldOpen"` // connections accepted by a REPLACED listener that are still open (in flight)
+	Blocked bool    `json:"blocked"` // RestartIF: the reload did not return while requests were in flight
 }
 
 type c17HsObs struct {
@@ -70,22 +86,66 @@ type c17HsObs struct {
 	Bad    string      `json:"bad"`
 }
 
-type c17HsMapper struct{}
-
-func (c17HsMapper) GetHandler(name string) (context.Handler, bool) { return nil, false }
-
-func c17HsYAML(port int, maxConn int64, keepAliveSec int) string {
-	return fmt.Sprintf("kind: HTTPServer\nname: c17hs\nport: %d\nkeepAlive: true\nkeepAliveTimeout: %ds\nhttps: false\nmaxConnections: %d\nrules: []\n",
-		port, keepAliveSec, maxConn)
+// c17HsPark is the backend of /park/<id>: the request stays in flight until the harness releases it.
+type c17HsPark struct {
+	mu      sync.Mutex
+	rel     map[string]chan struct{}
+	entered chan string
 }
+
+func (h *c17HsPark) release(path string) chan struct{} {
+	h.mu.Lock()
+	defer h.mu.Unlock()
+	ch, ok := h.rel[path]
+	if !ok {
+		ch = make(chan struct{})
+		h.rel[path] = ch
+	}
+	return ch
+}
+
+func (h *c17HsPark) Handle(ctx *context.Context) string {
+	req := ctx.GetRequest(context.DefaultNamespace).(*httpprot.Request)
+	ch := h.release(req.Path())
+	h.entered <- req.Path()
+	<-ch
+	resp, _ := httpprot.NewResponse(nil)
+	resp.SetStatusCode(200)
+	ctx.SetResponse(context.DefaultNamespace, resp)
+	return ""
+}
+
+type c17HsMapper struct{ park *c17HsPark }
+
+func (m c17HsMapper) GetHandler(name string) (context.Handler, bool) {
+	if name == "park" && m.park != nil {
+		return m.park, true
+	}
+	return nil, false
+}
+
+// c17HsYAML: `body` (clientMaxBodySize) is the field a restart-needing reload changes
+func c17HsYAML(port int, maxConn int64, kat string, body int) string {
+	if kat == "" {
+		kat = "60s"
+	}
+	return fmt.Sprintf("kind: HTTPServer\nname: c17hs\nport: %d\nkeepAlive: true\nkeepAliveTimeout: %s\nhttps: false\nclientMaxBodySize: %d\nmaxConnections: %d\n"+
+		"rules:\n- paths:\n  - pathPrefix: /park\n    backend: park\n", port, kat, body, maxConn)
+}
+
+// c17HsIdleOK: may connections sit idle (keep-alive) in this flavour without the server closing them?
+func c17HsIdleOK(kat string) bool { return kat == "" || kat == "0s" || kat == "60s" }
 
 var c17HsTimeout = int64(20 * time.Second)
 
 type c17HsClient struct {
-	conn   net.Conn
-	br     *bufio.Reader
-	served bool
-	closed bool
+	conn     net.Conn
+	br       *bufio.Reader
+	park     bool // its request is parked inside the handler
+	inflight bool // accepted, handler entered, not released yet
+	served   bool // accepted by the server (response received, or handler entered)
+	closed   bool
+	gen      int // listener generation that accepted it
 }
 
 type c17HsRun struct {
@@ -94,15 +154,52 @@ type c17HsRun struct {
 	clients []*c17HsClient
 	backlog []int // dialed, request sent, not yet served (FIFO, as the kernel queues them)
 	desync  bool
+	gen     int
+	park    *c17HsPark
 }
 
+// want: connections of the CURRENT listener that the server has accepted and that are still open
 func (r *c17HsRun) want() (n int64) {
 	for _, c := range r.clients {
-		if c.served && !c.closed {
+		if c.served && !c.closed && c.gen == r.gen {
 			n++
 		}
 	}
 	return
+}
+
+func (r *c17HsRun) oldOpen() (n int64) {
+	for _, c := range r.clients {
+		if c.served && !c.closed && c.gen != r.gen {
+			n++
+		}
+	}
+	return
+}
+
+func (r *c17HsRun) inflight() (ids []int) {
+	for i, c := range r.clients {
+		if c.inflight && !c.closed {
+			ids = append(ids, i)
+		}
+	}
+	return
+}
+
+// unpark lets the parked request of client i finish; the client reads the response and closes
+func (r *c17HsRun) unpark(i int) {
+	c := r.clients[i]
+	close(r.park.release(fmt.Sprintf("/park/%d", i)))
+	c.conn.SetReadDeadline(time.Now().Add(20 * time.Second))
+	resp, err := http.ReadResponse(c.br, nil)
+	if err != nil {
+		r.desync = true
+	} else {
+		resp.Body.Close()
+	}
+	c.inflight = false
+	c.closed = true
+	c.conn.Close()
 }
 
 // settle waits until the server has come to rest. The server acts on its own here (its accept
@@ -127,7 +224,17 @@ func (r *c17HsRun) settle() {
 		if openSrv == r.want() && (len(r.backlog) == 0 || queued) {
 			return
 		}
-		if len(r.backlog) > 0 {
+		if len(r.backlog) > 0 && r.clients[r.backlog[0]].park {
+			// the head waits for its handler to be entered (the harness learns it from the handler)
+			select {
+			case <-r.park.entered:
+				c := r.clients[r.backlog[0]]
+				c.served, c.inflight, c.gen = true, true, r.gen
+				r.backlog = r.backlog[1:]
+				continue
+			default:
+			}
+		} else if len(r.backlog) > 0 {
 			c := r.clients[r.backlog[0]]
 			c.conn.SetReadDeadline(time.Now().Add(2 * time.Millisecond))
 			if _, err := c.br.Peek(1); err == nil {
@@ -138,7 +245,7 @@ func (r *c17HsRun) settle() {
 					return
 				}
 				resp.Body.Close()
-				c.served = true
+				c.served, c.gen = true, r.gen
 				r.backlog = r.backlog[1:]
 				continue
 			}
@@ -168,10 +275,11 @@ func (r *c17HsRun) step(decoded int64, skipped bool) c17HsStep {
 		}
 	}
 	for i, c := range r.clients {
-		if c.served && !c.closed {
+		if c.served && !c.closed && c.gen == r.gen {
 			st.Served = append(st.Served, int64(i))
 		}
 	}
+	st.OldOpen = r.oldOpen()
 	sort.Slice(st.Served, func(i, j int) bool { return st.Served[i] < st.Served[j] })
 	return st
 }
@@ -188,23 +296,30 @@ func c17HsExec(in c17HsIn) (obs c17HsObs) {
 		blocker.Close()
 		blocker = nil
 	}
-	kat := 60
+	body := 0
 	capNow := in.Init
-	ss, err := supervisor.NewSpec(c17HsYAML(port, capNow, kat))
+	ss, err := supervisor.NewSpec(c17HsYAML(port, capNow, in.Kat, body))
 	if err != nil {
 		obs.Bad = "spec rejected: " + err.Error()
 		return
 	}
 	decoded := int64(ss.ObjectSpec().(*Spec).MaxConnections)
-	mm := c17HsMapper{}
+	park := &c17HsPark{rel: map[string]chan struct{}{}, entered: make(chan string, 64)}
+	mm := c17HsMapper{park: park}
 	rt := &runtime{superSpec: ss, eventChan: make(chan interface{}, 10), httpStat: httpstat.New(), topN: httpstat.NewTopN(topNum)}
 	rt.mux = newMux(rt.httpStat, rt.topN, mm)
 	rt.setState(stateNil)
 	rt.setError(errNil)
 	rt.reload(ss, mm) // first start; fails (state failed) while somebody else owns the port
-	r := &c17HsRun{}
+	r := &c17HsRun{park: park}
 	defer func() {
-		for _, c := range r.clients {
+		for i, c := range r.clients {
+			if c.park {
+				func() {
+					defer func() { recover() }() // already released
+					close(park.release(fmt.Sprintf("/park/%d", i)))
+				}()
+			}
 			if !c.closed {
 				c.conn.Close()
 			}
@@ -223,6 +338,7 @@ func c17HsExec(in c17HsIn) (obs c17HsObs) {
 		// a (re)started server has a new LimitListener; its accept loop takes the first permit
 		r.sem = rt.limitListener.VfC17Sem()
 		r.backlog = nil
+		r.gen++
 		r.settle()
 	}
 	if running {
@@ -231,7 +347,7 @@ func c17HsExec(in c17HsIn) (obs c17HsObs) {
 	// closeAll: the harness ends every connection it has served (used before the listener is replaced)
 	closeAll := func() {
 		for _, c := range r.clients {
-			if c.served && !c.closed {
+			if c.served && !c.closed && !c.inflight {
 				c.closed = true
 				c.conn.Close()
 			}
@@ -244,9 +360,10 @@ func c17HsExec(in c17HsIn) (obs c17HsObs) {
 			continue
 		}
 		skipped := false
+		blockedIF := false
 		switch op[0] {
-		case 0:
-			if !running {
+		case 0, 6:
+			if !running || (op[0] == 0 && !c17HsIdleOK(in.Kat)) {
 				skipped = true
 				break
 			}
@@ -255,9 +372,13 @@ func c17HsExec(in c17HsIn) (obs c17HsObs) {
 				r.desync = true
 				break
 			}
-			c := &c17HsClient{conn: conn, br: bufio.NewReader(conn)}
+			c := &c17HsClient{conn: conn, br: bufio.NewReader(conn), park: op[0] == 6}
 			r.clients = append(r.clients, c)
-			fmt.Fprintf(conn, "GET /c17/%d HTTP/1.1\r\nHost: c17\r\n\r\n", len(r.clients)-1)
+			if c.park {
+				fmt.Fprintf(conn, "GET /park/%d HTTP/1.1\r\nHost: c17\r\n\r\n", len(r.clients)-1)
+			} else {
+				fmt.Fprintf(conn, "GET /c17/%d HTTP/1.1\r\nHost: c17\r\n\r\n", len(r.clients)-1)
+			}
 			r.backlog = append(r.backlog, len(r.clients)-1)
 		case 1:
 			if !running {
@@ -268,8 +389,8 @@ func c17HsExec(in c17HsIn) (obs c17HsObs) {
 				break
 			}
 			c := r.clients[op[1]]
-			if !c.served || c.closed {
-				break // only served connections are closed (a waiting one would be accepted later as a dead socket)
+			if !c.served || c.closed || c.inflight || c.gen != r.gen {
+				break // only idle served connections are closed (a waiting one would be accepted later as a dead socket)
 			}
 			c.closed = true
 			c.conn.Close() // the server notices the EOF of the idle keep-alive connection and closes it
@@ -287,7 +408,7 @@ func c17HsExec(in c17HsIn) (obs c17HsObs) {
 					break
 				}
 			}
-			ssNew, err := supervisor.NewSpec(c17HsYAML(port, op[1], kat))
+			ssNew, err := supervisor.NewSpec(c17HsYAML(port, op[1], in.Kat, body))
 			if err != nil {
 				skipped = true // rejected by validation: nothing is reloaded
 				break
@@ -302,14 +423,14 @@ func c17HsExec(in c17HsIn) (obs c17HsObs) {
 			capNow = op[1]
 			decoded = int64(ssNew.ObjectSpec().(*Spec).MaxConnections)
 		case 3:
-			// a reload that DOES need a restart (keepAliveTimeout changes): closeServer + startServer
-			if !running || len(r.backlog) > 0 {
+			// a reload that DOES need a restart (clientMaxBodySize changes): closeServer + startServer
+			if !running || len(r.backlog) > 0 || len(r.inflight()) > 0 {
 				skipped = true
 				break
 			}
 			closeAll()
-			kat = 121 - kat
-			ssNew, err := supervisor.NewSpec(c17HsYAML(port, capNow, kat))
+			body = 1024 - body
+			ssNew, err := supervisor.NewSpec(c17HsYAML(port, capNow, in.Kat, body))
 			if err != nil {
 				obs.Bad = "spec rejected: " + err.Error()
 				r.desync = true
@@ -327,7 +448,7 @@ func c17HsExec(in c17HsIn) (obs c17HsObs) {
 			attach()
 		case 4:
 			// Serve fails (the listener is closed behind the server's back): eventServeFailed -> state failed
-			if !running || len(r.backlog) > 0 {
+			if !running || len(r.backlog) > 0 || len(r.inflight()) > 0 {
 				skipped = true
 				break
 			}
@@ -346,6 +467,66 @@ func c17HsExec(in c17HsIn) (obs c17HsObs) {
 				obs.Bad = "server still running after its listener was closed"
 				r.desync = true
 			}
+		case 7:
+			if len(op) < 2 || op[1] < 0 || op[1] >= int64(len(r.clients)) || !r.clients[op[1]].inflight || r.clients[op[1]].closed {
+				break
+			}
+			r.unpark(int(op[1]))
+		case 8:
+			// a restart-needing reload while the harness's connections (idle and in flight) stay open
+			if !running || len(r.backlog) > 0 {
+				skipped = true
+				break
+			}
+			body = 1024 - body
+			ssNew, err := supervisor.NewSpec(c17HsYAML(port, capNow, in.Kat, body))
+			if err != nil {
+				obs.Bad = "spec rejected: " + err.Error()
+				r.desync = true
+				break
+			}
+			before := rt.startNum
+			done := make(chan struct{})
+			go func() { rt.reload(ssNew, mm); close(done) }()
+			waitDone := func(d time.Duration) bool {
+				select {
+				case <-done:
+					return true
+				case <-time.After(d):
+					return false
+				}
+			}
+			fl := r.inflight()
+			if len(fl) > 0 {
+				// Does the reload return although requests are in flight? A bounded wait: it can only
+				// miss an early return. The unchanged runtime stays in Shutdown (30 s grace).
+				if !waitDone(300 * time.Millisecond) {
+					blockedIF = true
+					for _, i := range fl {
+						r.unpark(i)
+					}
+				}
+			}
+			if !waitDone(40 * time.Second) {
+				obs.Bad = "restart-needing reload did not return"
+				r.desync = true
+				break
+			}
+			if rt.startNum == before || rt.getState() != stateRunning {
+				obs.Bad = fmt.Sprintf("restart: startNum %d -> %d, state %v, error %v", before, rt.startNum, rt.getState(), rt.getError())
+				r.desync = true
+				running = rt.getState() == stateRunning
+				break
+			}
+			decoded = int64(ssNew.ObjectSpec().(*Spec).MaxConnections)
+			// Shutdown has closed the idle connections of the replaced listener
+			for _, c := range r.clients {
+				if c.served && !c.closed && !c.inflight {
+					c.closed = true
+					c.conn.Close()
+				}
+			}
+			attach() // connections still in flight on the replaced listener stay open (oldOpen)
 		case 5:
 			// the periodic check of a failed server (runtime.checkFailed -> eventCheckFailed) starts it again
 			if running {
@@ -370,8 +551,9 @@ func c17HsExec(in c17HsIn) (obs c17HsObs) {
 		}
 		st := r.step(decoded, skipped)
 		st.Running = running
+		st.Blocked = blockedIF
 		if !running {
-			st.Cur, st.Real, st.Wq, st.Shr, st.Served, st.Waiting = 0, 0, []int64{}, 0, []int64{}, 0
+			st.Cur, st.Real, st.Wq, st.Shr, st.Served, st.Waiting, st.OldOpen = 0, 0, []int64{}, 0, []int64{}, 0, 0
 		}
 		obs.Steps = append(obs.Steps, st)
 	}
@@ -380,21 +562,35 @@ func c17HsExec(in c17HsIn) (obs c17HsObs) {
 }
 
 func c17HsGen(r *vfRand, adv bool) c17HsIn {
-	in := c17HsIn{M: sem2.VfC17MaxCapacity, Init: int64(r.PickInt(1, 1, 2, 2, 3)), BusyStart: r.Chance(1, 4)}
+	in := c17HsIn{M: sem2.VfC17MaxCapacity, Init: int64(r.PickInt(1, 1, 2, 2, 3)), BusyStart: r.Chance(1, 4),
+		Kat: r.PickStr("", "", "", "0s", "1ms", "50ms")}
+	idleOK := c17HsIdleOK(in.Kat)
 	k := r.Range(4, 12)
 	if adv {
 		k = r.Range(8, 20)
 	}
 	dialed := 0
 	running := !in.BusyStart
-	probe := func() { // fill the cap with keep-alive connections and one more
-		for i := r.Range(2, 4); i > 0; i-- {
+	dial := func() {
+		if idleOK && r.Chance(2, 3) {
 			in.Ops = append(in.Ops, []int64{0})
-			dialed++
+		} else {
+			in.Ops = append(in.Ops, []int64{6})
+		}
+		dialed++
+	}
+	probe := func() { // fill the cap and one more
+		for i := r.Range(2, 4); i > 0; i-- {
+			dial()
+		}
+	}
+	endAll := func() { // nobody waiting, nothing in flight
+		for i := 0; i < dialed; i++ {
+			in.Ops = append(in.Ops, []int64{7, int64(i)}, []int64{1, int64(i)})
 		}
 	}
 	for j := 0; j < k; j++ {
-		x := r.Intn(20)
+		x := r.Intn(24)
 		switch {
 		case !running:
 			if x < 8 {
@@ -405,23 +601,27 @@ func c17HsGen(r *vfRand, adv bool) c17HsIn {
 				probe()
 			}
 		case x < 8 || dialed == 0:
-			in.Ops = append(in.Ops, []int64{0})
-			dialed++
-		case x < 12:
+			dial()
+		case x < 11:
 			in.Ops = append(in.Ops, []int64{1, int64(r.Intn(dialed))})
+		case x < 13:
+			in.Ops = append(in.Ops, []int64{7, int64(r.Intn(dialed))})
 		case x < 16:
 			in.Ops = append(in.Ops, []int64{2, int64(r.PickInt(1, 1, 2, 3, 4))})
 		case x < 18:
-			// make sure nobody is waiting, then replace the listener
-			for i := 0; i < dialed; i++ {
-				in.Ops = append(in.Ops, []int64{1, int64(i)})
-			}
+			endAll()
 			in.Ops = append(in.Ops, []int64{3})
 			probe()
-		default:
-			for i := 0; i < dialed; i++ {
-				in.Ops = append(in.Ops, []int64{1, int64(i)})
+		case x < 21:
+			// a restart-needing reload with connections open - mostly with a request in flight
+			if r.Chance(3, 4) {
+				in.Ops = append(in.Ops, []int64{6})
+				dialed++
 			}
+			in.Ops = append(in.Ops, []int64{8})
+			probe()
+		default:
+			endAll()
 			in.Ops = append(in.Ops, []int64{4})
 			running = false
 		}
